@@ -287,12 +287,34 @@ func (c *Check) skipGuard(rel, fn, callee string, argIdx int, flags []string) {
 		c.undecided("C12-R2", "skip:"+fn, "", "no bool parameter named force in "+fn)
 		return
 	}
-	var calls []*ssa.Call
-	for _, b := range f.Blocks {
-		for _, ins := range b.Instrs {
-			if call, ok := ins.(*ssa.Call); ok {
-				if sc := call.Call.StaticCallee(); sc != nil && sc.Name() == callee && fnInModule(sc) {
-					calls = append(calls, call)
+	findCalls := func(g *ssa.Function) []*ssa.Call {
+		var calls []*ssa.Call
+		for _, b := range g.Blocks {
+			for _, ins := range b.Instrs {
+				if call, ok := ins.(*ssa.Call); ok {
+					if sc := call.Call.StaticCallee(); sc != nil && sc.Name() == callee && fnInModule(sc) {
+						calls = append(calls, call)
+					}
+				}
+			}
+		}
+		return calls
+	}
+	calls := findCalls(f)
+	if len(calls) == 0 {
+		// the per-mapping body may have been split out: a helper that fn calls with its own
+		// force flag and that contains the call
+		for _, b := range f.Blocks {
+			for _, ins := range b.Instrs {
+				h := helperCallee(f, ins)
+				if h == nil || len(findCalls(h)) == 0 {
+					continue
+				}
+				site := ins.(ssa.CallInstruction)
+				for i, a := range site.Common().Args {
+					if a == ssa.Value(force) && i < len(h.Params) {
+						f, force, calls = h, h.Params[i], findCalls(h)
+					}
 				}
 			}
 		}
@@ -378,6 +400,7 @@ func (c *Check) freshIDs(effects []Effect) {
 		}
 		key := "id:" + fnName(e.Fn) + ":" + e.T
 		leaves := map[string]bool{}
+		idFieldSeen = map[string]bool{}
 		classifyIDValue(e.Val, e.Fn, leaves, map[ssa.Value]bool{}, 0)
 		var badLeaves, unk []string
 		for l := range leaves {
@@ -468,6 +491,37 @@ func classifyIDValue(v ssa.Value, fn *ssa.Function, leaves map[string]bool, seen
 			if F == "ID" {
 				leaves[T+".ID"] = true
 				return
+			}
+			// a counter kept in a field of a module struct (an id allocator object): classify
+			// everything that is ever stored into that field
+			if idProg != nil && typeInModule(a.X.Type()) && !idFieldSeen[T+"."+F] {
+				idFieldSeen[T+"."+F] = true
+				n := 0
+				for g := range idProg.AllFns {
+					if !fnInModule(g) || g.Blocks == nil {
+						continue
+					}
+					for _, b := range g.Blocks {
+						for _, ins := range b.Instrs {
+							st, ok := ins.(*ssa.Store)
+							if !ok {
+								continue
+							}
+							if fa2, ok := st.Addr.(*ssa.FieldAddr); ok {
+								if t2, f2 := fieldOf(fa2.X.Type(), fa2.Field); t2 == T && f2 == F {
+									n++
+									classifyIDValue(st.Val, g, leaves, seen, depth+1)
+								}
+							}
+						}
+					}
+				}
+				if n > 0 {
+					return
+				}
+			}
+			if idFieldSeen[T+"."+F] {
+				return // already being classified (the field is incremented from itself)
 			}
 			leaves["?field "+T+"."+F] = true
 		case *ssa.Alloc, *ssa.FreeVar:
@@ -885,4 +939,16 @@ func appendedAtLeastOnce(g *guardEngine, f *ssa.Function, v ssa.Value) bool {
 		}
 	}
 	return false
+}
+
+// idFieldSeen: counter fields already expanded by the current classifyIDValue run.
+var idFieldSeen = map[string]bool{}
+
+// typeInModule: t is (a pointer to) a named type declared in the module.
+func typeInModule(t types.Type) bool {
+	if pt, ok := t.Underlying().(*types.Pointer); ok {
+		t = pt.Elem()
+	}
+	named, ok := t.(*types.Named)
+	return ok && named.Obj().Pkg() != nil && inModule(named.Obj().Pkg().Path())
 }
